@@ -1,6 +1,6 @@
 (* Executable entry of the schemaops model: opcode :: payload. *)
 From GV Require Import Base.Prelude SchemaOps.Schema SchemaOps.SchemaWire SchemaOps.NatOrder
-  SchemaOps.Sort SchemaOps.Diff.
+  SchemaOps.Sort SchemaOps.Diff SchemaOps.Build SchemaOps.Sdl.
 
 Definition enc_change (c : change) : list N :=
   c_kind c :: enc_list enc_text (c_path c).
@@ -25,6 +25,21 @@ Definition run (inp : list N) : list N :=
   | 4 :: r =>   (* echo *)
       match dec_schema r with
       | Some (s, []) => 1 :: enc_schema s
+      | _ => [0]
+      end
+  | 5 :: r =>
+      match dec_schema r with
+      | Some (s, []) => 1 :: enc_list enc_def (sdl_of s)
+      | _ => [0]
+      end
+  | 6 :: r =>
+      match dec_list dec_def r with
+      | Some (ds, []) => match build ds with Some s => 1 :: enc_schema s | None => [2] end
+      | _ => [0]
+      end
+  | 7 :: r =>
+      match (s <- dec_schema ;; ds <- dec_list dec_def ;; retd (s, ds)) r with
+      | Some ((s, ds), []) => 1 :: enc_schema (extend s ds)
       | _ => [0]
       end
   | _ => [999999]
